@@ -1,4 +1,4 @@
 SPECIFICATION Spec
-CONSTANTS MaxRuns = 2  MaxIters = 3  StaticKeys = {"a", "b"}  StaticVal <- MCVal
-INVARIANTS MirrorsRun LabelsRight OneSeriesPerResult
+CONSTANTS MaxRuns = 2  MaxIters = 3  StaticKeys = {"a", "b"}  StaticVal <- MCVal  PushKind = "put"
+INVARIANTS MirrorsRun LabelsRight OneSeriesPerResult GatewayMirrorsRun
 CHECK_DEADLOCK FALSE
